@@ -11,8 +11,20 @@ HTTP fault kinds (what a real connection can do):
   lost              the whole request is read AND served (the object is stored), the response is lost (httpx.ReadError)   [upload]
   cut    k          the response is 200 with the full Content-Length, the body breaks after k bytes (httpx.ReadError)     [download]
 Local fault kinds:
-  mktemp / open / write j / src j / rename          (upload_stream)
-  open / truncate / read j / sink j                 (download_stream)
+  mktemp / open / write j / src j / rename          (upload_stream, upload)
+  open / truncate / read j / sink j                 (download_stream, download)
+Every local fault may carry `errno` (the class of OSError it surfaces with: ENOENT → FileNotFoundError, EACCES → PermissionError,
+ENOSPC, ESTALE, … — built with `OSError(errno, …)` so that Python picks the subclass the OS would; 0 = an OSError without errno;
+absent = EIO) and, for ENOENT at mktemp / open / rename (upload) and open (download), `state: true`: the fault is not a raised
+exception but a change of the directory the OS then complains about by itself —
+  mktemp  the object's freshly created, still empty directory is removed again before the temp file is created in it
+          (what a concurrent `clean` → os.rmdir of empty directories does)
+  open    the temp file and its (empty) directory vanish before the temp file is opened for writing
+  rename  the temp file vanishes before os.replace
+  open    (download) the object is not there while this attempt opens it, and is back for the next one (a flaky network FS)
+(where the directory is not empty and so cannot vanish, the same exception is raised synthetically).
+Every HTTP transport fault may carry `exc`, the httpx exception class the break surfaces with (ConnectError, ConnectTimeout,
+PoolTimeout, WriteError, WriteTimeout, ReadError, ReadTimeout, RemoteProtocolError … — all `httpx.TransportError`).
 
 Unlike `httpx.MockTransport` (which reads the whole request before calling the handler) `FaultTransport` pulls the request body
 chunk by chunk, exactly as a socket transport does, so a fault "after j chunks" leaves the payload stream where a real broken
@@ -55,19 +67,41 @@ class Plan:
         return self.cur['kind'] if self.cur else None
 
 
-def oserror(what):
-    return OSError(errno.EIO, 'injected I/O error: ' + what)
+def oserror(what, code=None):
+    """the OSError the OS would raise for errno `code` (None: EIO; 0: an OSError that carries no errno)"""
+    if code is None:
+        code = errno.EIO
+    if code == 0:
+        return OSError('injected I/O error without errno: ' + what)
+    return OSError(code, 'injected: %s: %s' % (os.strerror(code), what))
+
+
+def fault_error(f, what):
+    return oserror(what, f.get('errno') if f else None)
+
+
+TRANSPORT_EXC = {'connect': ('ConnectError', 'ConnectTimeout', 'PoolTimeout'),
+                 'send': ('WriteError', 'WriteTimeout', 'RemoteProtocolError'),
+                 'lost': ('ReadError', 'ReadTimeout', 'RemoteProtocolError'),
+                 'cut': ('ReadError', 'ReadTimeout', 'RemoteProtocolError')}
+
+
+def transport_error(f, default, message, request=None):
+    cls = getattr(httpx, (f or {}).get('exc') or default)
+    if request is not None:
+        return cls(message, request=request)
+    return cls(message)
 
 
 # ------------------------------------------------------------------------------------------------ HTTP
 class _Broken(httpx.AsyncByteStream):
-    def __init__(self, data, k, piece):
-        self.data, self.k, self.piece = data, k, max(1, piece)
+    def __init__(self, data, k, piece, fault=None):
+        self.data, self.k, self.piece, self.fault = data, k, max(1, piece), fault
 
     async def __aiter__(self):
         for off in range(0, self.k, self.piece):
             yield self.data[off:min(self.k, off + self.piece)]
-        raise httpx.ReadError('connection broken by the fake service after %d bytes' % self.k)
+        raise transport_error(self.fault, 'ReadError', 'connection broken by the fake service after %d bytes' % self.k)
 
 
 class FaultTransport(httpx.AsyncBaseTransport):
@@ -91,7 +125,7 @@ class FaultTransport(httpx.AsyncBaseTransport):
         kind = f['kind'] if f else None
         if kind == 'connect':
             self.plan.received.append(0)
-            raise httpx.ConnectError('injected: connection refused', request=request)
+            raise transport_error(f, 'ConnectError', 'injected: connection refused', request)
         if kind == 'send':
             got = 0
             if f['j'] > 0:
@@ -105,7 +139,7 @@ class FaultTransport(httpx.AsyncBaseTransport):
                     n += 1
                     got += len(part)
             self.plan.received.append(got)
-            raise httpx.WriteError('injected: connection reset after %d request bytes' % got, request=request)
+            raise transport_error(f, 'WriteError', 'injected: connection reset after %d request bytes' % got, request)
         await request.aread()
         self.plan.received.append(len(request.content))
         self.plan.bodies.append(bytes(request.content))
@@ -116,13 +150,13 @@ class FaultTransport(httpx.AsyncBaseTransport):
             return httpx.Response(f['code'], headers=headers, **self.error_body(f['code']))
         if kind == 'lost':
             await self.serve(request)
-            raise httpx.ReadError('injected: response lost', request=request)
+            raise transport_error(f, 'ReadError', 'injected: response lost', request)
         resp = await self.serve(request)
         if kind == 'cut' and resp.status_code == 200:
             data = resp.content
             h = {k: v for k, v in resp.headers.items() if k.lower() not in ('content-length', 'transfer-encoding')}
             h['content-length'] = str(len(data))
-            return httpx.Response(200, headers=h, stream=_Broken(data, min(f['k'], len(data)), self.piece))
+            return httpx.Response(200, headers=h, stream=_Broken(data, min(f['k'], len(data)), self.piece, f))
         return resp
 
 
@@ -151,7 +185,7 @@ class Payload(io.BytesIO):
     def read(self, size=-1):
         f = self.plan.cur if self.plan is not None else None
         if f and f['kind'] == 'src' and self.reads >= f['j']:
-            raise oserror('payload read #%d' % self.reads)
+            raise fault_error(f, 'payload read #%d' % self.reads)
         self.reads += 1
         return super().read(size)
 
@@ -175,14 +209,14 @@ class SinkMixin:
     def _before_write(self):
         f = self.plan.cur if self.plan is not None else None
         if f and f['kind'] == 'sink' and self.writes >= f['j']:
-            raise oserror('sink write #%d' % self.writes)
+            raise fault_error(f, 'sink write #%d' % self.writes)
         self.writes += 1
 
     def _before_truncate(self, size):
         self.truncates.append(size)
         f = self.plan.cur if self.plan is not None else None
         if f and f['kind'] == 'truncate':
-            raise oserror('sink truncate')
+            raise fault_error(f, 'sink truncate')
 
 
 class MemSink(SinkMixin, io.BytesIO):
@@ -271,7 +305,7 @@ class _FaultyFile:
     def write(self, b):
         f = self._plan.cur
         if f and f['kind'] == 'write' and self._n >= f['j']:
-            raise oserror('temp file write #%d' % self._n)
+            raise fault_error(f, 'temp file write #%d' % self._n)
         self._n += 1
         self._bytes += len(b)
         return self._f.write(b)
@@ -279,7 +313,7 @@ class _FaultyFile:
     def read(self, *a):
         f = self._plan.cur
         if f and f['kind'] == 'read' and self._n >= f['j']:
-            raise oserror('object read #%d' % self._n)
+            raise fault_error(f, 'object read #%d' % self._n)
         self._n += 1
         return self._f.read(*a)
 
@@ -293,6 +327,30 @@ class LocalInjector:
         self.mktemp_pending = False
         self.renames = 0
         self.temps_created = 0
+        self.state_faults = 0     # faults realised as a change of the directory (the OS raised the exception itself)
+        self.synthetic_fallbacks = 0
+        self._hidden = None       # (hidden path, real path) of an object that is away for one attempt
+
+    # ---- faults that are a state of the directory, not a raised exception
+    @staticmethod
+    def _is_state(f):
+        return bool(f) and bool(f.get('state'))
+
+    def _vanish_dir(self, d):
+        """what a concurrent `clean` does to an empty directory; False if the directory is not empty (it cannot vanish)"""
+        try:
+            os.rmdir(d)
+        except OSError:
+            self.synthetic_fallbacks += 1
+            return False
+        self.state_faults += 1
+        return True
+
+    def _restore_hidden(self):
+        if self._hidden is not None:
+            hidden, real = self._hidden
+            self._hidden = None
+            self._saved[3](hidden, real)
 
     def _mine(self, file):
         if isinstance(file, int):
@@ -313,7 +371,9 @@ class LocalInjector:
                 if f and f['kind'] == 'mktemp':
                     self.mktemp_pending = False
                     self.plan.received.append(0)
-                    raise oserror('creating the temporary file')
+                    if self._is_state(f) and self._vanish_dir(file):     # `file` is the directory the temp file is created in
+                        return _REAL_OPEN(file, mode, *a, **k)           # … and the OS says ENOENT by itself
+                    raise fault_error(f, 'creating the temporary file')
                 self.temps_created += 1
                 return _REAL_OPEN(file, mode, *a, **k)
             if any(c in mode for c in 'wax+'):
@@ -323,14 +383,28 @@ class LocalInjector:
                 f = self.plan.cur
                 if f and f['kind'] == 'open':
                     self.plan.received.append(0)
-                    raise oserror('opening the temporary file for writing')
+                    if self._is_state(f):
+                        try:
+                            os.unlink(file)
+                        except OSError:
+                            pass
+                        if self._vanish_dir(os.path.dirname(os.fspath(file))):
+                            return _REAL_OPEN(file, mode, *a, **k)       # raises FileNotFoundError by itself
+                    raise fault_error(f, 'opening the temporary file for writing')
                 return _FaultyFile(_REAL_OPEN(file, mode, *a, **k), self.plan, 'w')
             return _REAL_OPEN(file, mode, *a, **k)
         # download
         if 'r' in mode and '+' not in mode:
+            self._restore_hidden()
             f = self.plan.begin_attempt()
             if f and f['kind'] == 'open':
-                raise oserror('opening the object for reading')
+                if self._is_state(f):
+                    hidden = os.path.join(os.path.dirname(self.root), '.c12-away-%d' % os.getpid())
+                    self._saved[3](os.fspath(file), hidden)
+                    self._hidden = (hidden, os.fspath(file))
+                    self.state_faults += 1
+                    return _REAL_OPEN(file, mode, *a, **k)               # raises FileNotFoundError by itself
+                raise fault_error(f, 'opening the object for reading')
             return _FaultyFile(_REAL_OPEN(file, mode, *a, **k), self.plan, 'r')
         return _REAL_OPEN(file, mode, *a, **k)
 
@@ -339,7 +413,15 @@ class LocalInjector:
             if self._mine(dst):
                 f = self.plan.cur
                 if f and f['kind'] == 'rename':
-                    raise oserror('renaming the temporary file')
+                    if self._is_state(f):
+                        try:
+                            os.unlink(src)
+                        except OSError:
+                            self.synthetic_fallbacks += 1
+                        else:
+                            self.state_faults += 1
+                            return real(src, dst, *a, **k)               # raises FileNotFoundError by itself
+                    raise fault_error(f, 'renaming the temporary file')
                 self.renames += 1
             return real(src, dst, *a, **k)
         return wrapped
@@ -353,4 +435,5 @@ class LocalInjector:
 
     def __exit__(self, *a):
         io.open, builtins.open, os.replace, os.rename = self._saved
+        self._restore_hidden()
         return False
